@@ -14,9 +14,11 @@ Inst(srcs, snks, sigs, merges, maxlen, maxlocks, grp) ==
   IN {[grp |-> grp, edges |-> es, locked |-> SetToSeq({[n |-> n, c |-> lk[n]] : n \in DOMAIN lk})] : es \in seqs, lk \in lockfns}
 \* one signal, up to three sources and two sinks, merges: every sequence of up to 3 edges x up to 2 locks;
 \* two signals / a source-less edge / longer sequences without merges
-All == Inst({1, 2, 3}, {1, 2}, {1}, {0, 1}, 3, 2, "one-signal")
-       \cup Inst({0, 1, 2}, {1}, {1, 2}, {0, 1}, 3, 1, "two-signals")
-       \cup Inst({1, 2, 3}, {1}, {1}, {0, 1, 2}, 4, 1, "one-sink")
+\* COL_SCALE = "quick": sequences one edge shorter (10 136 instances instead of 104 447)
+D == IF IOEnv.COL_SCALE = "quick" THEN 1 ELSE 0
+All == Inst({1, 2, 3}, {1, 2}, {1}, {0, 1}, 3 - D, 2, "one-signal")
+       \cup Inst({0, 1, 2}, {1}, {1, 2}, {0, 1}, 3 - D, 1, "two-signals")
+       \cup Inst({1, 2, 3}, {1}, {1}, {0, 1, 2}, 4 - D, 1, "one-sink")
 ASSUME PrintT(<<"NPROGS", Cardinality(All)>>)
 ASSUME JsonSerialize(IOEnv.GEN_OUT, SetToSeq(All))
 =============================================================================
